@@ -151,6 +151,17 @@ func (q *Query) addVal(val interface{}) {
 	elem.lastCond = ILLEGAL
 }
 
+// addQuotedVal adds the value of a double-quoted string literal. A literal the
+// grammar accepts but that is not a valid quoted string (unknown escape, raw
+// newline) is a parse error; it used to be stored as the empty string.
+func (q *Query) addQuotedVal(lit string) {
+	s, err := strconv.Unquote(lit)
+	if err != nil {
+		panic(fmt.Sprintf("%s: %s", invalidStringLiteralError, lit))
+	}
+	q.addVal(s)
+}
+
 func (q *Query) addNumVal(val string) {
 	elem := q.lastCallStackElem()
 	if elem == nil || elem.lastField == "" {
